@@ -720,6 +720,7 @@ impl Property for C20 {
                                         let base = add(add(scale(t[0], q.bc[0]), scale(t[1], q.bc[1])), scale(t[2], q.bc[2]));
                                         let p = sc.poses[pi].apply(add(base, scale(q.offset, size)));
                                         let mut best = (f64::INFINITY, [0.0; 3]);
+                                        let mut fbest = 0;
                                         let mut cands: Vec<(f64, [f64; 3])> = Vec::new();
                                         for fi in 0..posed.f.len() {
                                             let cp = closest_on_triangle(p, &posed.tri(fi));
@@ -727,6 +728,7 @@ impl Property for C20 {
                                             cands.push((d, cp));
                                             if d < best.0 {
                                                 best = (d, cp);
+                                                fbest = fi;
                                             }
                                         }
                                         // unique closest point: every candidate that is nearly as
@@ -735,6 +737,29 @@ impl Property for C20 {
                                         if !unique {
                                             stats.bump("undetermined:near-probe-closest-point-not-unique");
                                             continue;
+                                        }
+                                        // a round trip is only defined where the chart is
+                                        // one-to-one: a boundary vertex whose angles add up to
+                                        // more than a full turn (an open fan rolled up) or a strip
+                                        // curling back over itself lay out, isometrically, on top
+                                        // of themselves. Not judged where another sheet of the
+                                        // layout covers the chart position of the closest point.
+                                        {
+                                            let bc = bary_on_triangle(best.1, &posed.tri(fbest));
+                                            let g = posed.f[fbest];
+                                            let e = [
+                                                l[g[0] as usize][0] * bc[0] + l[g[1] as usize][0] * bc[1] + l[g[2] as usize][0] * bc[2],
+                                                l[g[0] as usize][1] * bc[0] + l[g[1] as usize][1] * bc[1] + l[g[2] as usize][1] * bc[2],
+                                            ];
+                                            let covered_twice = (0..posed.f.len()).any(|fi| {
+                                                let h = posed.f[fi];
+                                                in_triangle_2d(e, l[h[0] as usize], l[h[1] as usize], l[h[2] as usize], 1e-6 * size)
+                                                    && dist3(closest_on_triangle(best.1, &posed.tri(fi)), best.1) > 1e-5 * size
+                                            });
+                                            if covered_twice {
+                                                stats.bump("undetermined:near-probe-chart-covers-itself");
+                                                continue;
+                                            }
                                         }
                                         stats.bump("companion:uv-near-probe");
                                         match &o.near[qi] {
@@ -981,4 +1006,37 @@ impl Property for C20 {
             "rejection clause quantified over the listed families only: closed, several boundaries, non-manifold edge, vertex-only contact".into(),
         ]
     }
+}
+
+/// Barycentric coordinates of a point of the plane of a 3-D triangle (least squares otherwise).
+fn bary_on_triangle(p: [f64; 3], t: &[[f64; 3]; 3]) -> [f64; 3] {
+    let (e0, e1, w) = (sub(t[1], t[0]), sub(t[2], t[0]), sub(p, t[0]));
+    let (d00, d01, d11, d20, d21) = (dot(e0, e0), dot(e0, e1), dot(e1, e1), dot(w, e0), dot(w, e1));
+    let den = d00 * d11 - d01 * d01;
+    if den.abs() < 1e-300 {
+        return [1.0, 0.0, 0.0];
+    }
+    let v = (d11 * d20 - d01 * d21) / den;
+    let u = (d00 * d21 - d01 * d20) / den;
+    [1.0 - v - u, v, u]
+}
+
+/// Is `e` inside the 2-D triangle (either orientation) or within `margin` of it?
+fn in_triangle_2d(e: [f64; 2], a: [f64; 2], b: [f64; 2], c: [f64; 2], margin: f64) -> bool {
+    let area = (b[0] - a[0]) * (c[1] - a[1]) - (b[1] - a[1]) * (c[0] - a[0]);
+    if area == 0.0 {
+        return false;
+    }
+    let s = area.signum();
+    for (p, q) in [(a, b), (b, c), (c, a)] {
+        let (dx, dy) = (q[0] - p[0], q[1] - p[1]);
+        let len = (dx * dx + dy * dy).sqrt();
+        if len == 0.0 {
+            return false;
+        }
+        if s * (dx * (e[1] - p[1]) - dy * (e[0] - p[0])) / len < -margin {
+            return false;
+        }
+    }
+    true
 }
